@@ -16,6 +16,7 @@ EXPLANATION = (
     'the socket is no longer open), R6 packet counter stays inside its header slot and runs 0..limit-1 round (bounded evaluation of __init__ + '
     "create_from_message by the checker's own interpreter until the counter state repeats; the slot is read off the header bytes as the encoder builds "
     'them). These are necessary conditions of the history property; the interleaving/timing clauses are not decided.'
+    ' Added later: R3 also demands that any entry condition of the drain other than `is_connected` (a re-entrancy flag) is released on every exit, cancellation included; R7 (C07.R9 re-used): while is_connected holds a writer is stored at every suspension point, so a popped message always finds a stream.'
 )
 ASSUMPTIONS = [
     "asyncio runs a task without interleaving between two awaits (cooperative scheduling)",
